@@ -65,6 +65,7 @@ TYPES['196'] = dict(rules=[
 ])
 
 TYPES['210'] = dict(
+    scalars=['MAX_REPETITIVE_SEQUENCES'],
     preamble='''
 /// C2 (C06): in each repetitive sequence exactly one of 50a / 52a (one error per offending sequence)
 pub open spec fn c2_spec_n(v: Seq<MT210Transaction>, n: int) -> Seq<Seq<char>>
